@@ -25,7 +25,7 @@ RULE = (
     "panel, parse_source AST equality and generated-text equality; W5 every thread builds its own revisions of one "
     "experiment name (unique labels per construction); W2 concurrent calls on shared evaluators; W3 one "
     "evaluator toggled between texts A and B by a recompiler while callers evaluate (result must be A(x) or B(x)); W4 "
-    "failing recompiles racing with calls (callers keep seeing A); W6 all of it at once. distinct_nontrivial = distinct (run, thread, op) "
+    "failing recompiles racing with calls (callers keep seeing A); W6 all of it at once; W7 staggered constructions of a 1500-rung else-if ladder (outcome class compared). distinct_nontrivial = distinct (run, thread, op) "
     "results produced by worker threads that were released together by a barrier and ran concurrently (evidence of real "
     "overlap is reported separately: threads simultaneously inside parse_source, cross-thread switches between line events)."
 )
@@ -72,6 +72,9 @@ TEXT_A = 'def ab { splitters: uid return "a1" weighted 1, "a2" weighted 1 }'
 TEXT_B = 'def ab { /* b */ splitters: uid if plan == "a" { return "b1" weighted 1 } else { return "b2" weighted 1, "b3" weighted 2 } }'
 TEXT_BAD = ['def ab { splitters: uid return "a1" weighted 1; }', 'def ab { splitters: uid return "a1" weighted }', "def ab { /* open",
             'junk def ab { return "z" weighted 1 }']
+
+
+SEQ_CACHE = {}
 
 
 class Interleaver:
@@ -211,6 +214,8 @@ def run(ctx):
             workload = ["W1", "W5", "W2", "W3", "W4", "W6"][run_i % 6] if run_i % 12 < 6 else rnd.choice(["W1", "W1", "W5", "W5", "W2", "W3", "W3", "W4", "W6"])
             if workload == "W6":
                 nthreads = max(nthreads, 4)
+            if run_i % 12 == 11:
+                workload, nthreads, inject = "W7", 3, False
             ops = (8 if inject else 30) if ctx.quick() else (12 if inject else 60)
             logs = [[] for _ in range(nthreads)]
             errors = [[] for _ in range(nthreads)]
@@ -311,6 +316,30 @@ def run(ctx):
                             except Exception as e:  # noqa: BLE001
                                 errors[ti].append((0, workload, type(e).__name__, str(e)[:160]))
                                 shared["stop"] = True
+                        return work
+                elif workload == "W7":
+                    # very long parses (an else-if ladder far beyond the explored sizes): whatever a construction does
+                    # alone - succeed or fail with some error - it must do under concurrency as well
+                    shared.setdefault("w7", None)
+                    if "w7_seq" not in SEQ_CACHE:
+                        SEQ_CACHE["w7_text"] = chain(1500)
+                        c0 = im.construct(SEQ_CACHE["w7_text"])
+                        SEQ_CACHE["w7_seq"] = "ok" if c0[0] == "ok" else c0[1]
+                    big, want = SEQ_CACHE["w7_text"], SEQ_CACHE["w7_seq"]
+
+                    def make(ti):
+                        r = random.Random(seed + ti)
+
+                        def work():
+                            start.wait()
+                            for k in range(2):
+                                time.sleep(r.random() * 0.2)
+                                try:
+                                    im.Evaluator(big)
+                                    got = "ok"
+                                except Exception as e:  # noqa: BLE001
+                                    got = type(e).__name__
+                                logs[ti].append((k, "huge-construction", "chain(1500)", got == want, None if got == want else (got, want)))
                         return work
                 elif workload == "W2":
                     evs = {t: im.Evaluator(t) for t in SOURCES}
